@@ -91,6 +91,58 @@ fn wf(toks: &[BinaryToken], data: &[u8]) -> char {
     'y'
 }
 
+// >>> a_c06 (C06)
+/// tape with the offset of every string payload relative to the input slice (`Q@<off>:<hex>`,
+/// `@X` when the pointer range is outside the slice); everything else as `show_tok`.
+fn show_tape_ptr(toks: &[BinaryToken], data: &[u8]) -> String {
+    let lo = data.as_ptr() as usize;
+    let hi = lo + data.len();
+    let mut s = String::from("OK");
+    for t in toks {
+        s.push(' ');
+        match t {
+            BinaryToken::Quoted(x) | BinaryToken::Unquoted(x) => {
+                let tag = if matches!(t, BinaryToken::Quoted(_)) { "Q" } else { "U" };
+                let b = x.as_bytes();
+                let a = b.as_ptr() as usize;
+                if a < lo || a + b.len() > hi {
+                    s.push_str(&format!("{}@X:{}", tag, hex(b)));
+                } else {
+                    s.push_str(&format!("{}@{}:{}", tag, a - lo, hex(b)));
+                }
+            }
+            _ => s.push_str(&show_tok(t)),
+        }
+    }
+    s
+}
+
+/// `A:<e>` / `O:<e>` / `E:<i>` / anything else = a scalar: input of the structural checker alone
+fn toks_of_shape(s: &str) -> Vec<BinaryToken<'static>> {
+    let mut v = Vec::new();
+    if s == "-" || s.is_empty() {
+        return v;
+    }
+    for t in s.split(' ') {
+        let num = |x: &str| x.parse::<usize>().unwrap();
+        if let Some(e) = t.strip_prefix("A:") {
+            v.push(BinaryToken::Array(num(e)));
+        } else if let Some(e) = t.strip_prefix("O:") {
+            v.push(BinaryToken::Object(num(e)));
+        } else if let Some(e) = t.strip_prefix("E:") {
+            v.push(BinaryToken::End(num(e)));
+        } else if t == "M" {
+            v.push(BinaryToken::MixedContainer);
+        } else if t == "EQ" {
+            v.push(BinaryToken::Equal);
+        } else {
+            v.push(BinaryToken::Bool(true));
+        }
+    }
+    v
+}
+// <<< a_c06
+
 fn all_with<'a>(data: &'a [u8], topt: &mut BinaryTape<'a>, tref: &mut BinaryTape<'a>) -> String {
     let ro = BinaryTapeParser.parse_slice_into_tape(data, topt);
     let rr = BinaryTapeParser.parse_slice_into_tape_unoptimized(data, tref);
@@ -133,6 +185,33 @@ pub fn dispatch(kind: &str, a: &[&str]) -> Option<String> {
             let _ = BinaryTapeParser.parse_slice_into_tape_unoptimized(&first, &mut t2);
             all_with(&data, &mut t1, &mut t2)
         }
+        // >>> a_c06 (C06)
+        // the structural checker of this file alone, on an arbitrary token shape (cross-checked
+        // against BinTapeWf.tape_wfb and the Python checker, on sound AND unsound tapes)
+        ("bt.wfcheck", [shape]) => {
+            let toks = toks_of_shape(shape);
+            wf(&toks, &[]).to_string()
+        }
+        // BinaryTapeParser.parse_slice (fresh tape) and parse_slice_into_tape on a used tape:
+        // string payload offsets relative to the input
+        ("bt.ptr", [h]) => {
+            let data = unhex(h);
+            match BinaryTapeParser.parse_slice(&data) {
+                Ok(t) => show_tape_ptr(t.tokens(), &data),
+                Err(_) => "ERR".to_string(),
+            }
+        }
+        ("bt.ptr_reuse", [h1, h2]) => {
+            let first = unhex(h1);
+            let data = unhex(h2);
+            let mut t1 = BinaryTape::new();
+            let _ = BinaryTapeParser.parse_slice_into_tape(&first, &mut t1);
+            match BinaryTapeParser.parse_slice_into_tape(&data, &mut t1) {
+                Ok(()) => show_tape_ptr(t1.tokens(), &data),
+                Err(_) => "ERR".to_string(),
+            }
+        }
+        // <<< a_c06
         _ => return None,
     };
     Some(r)
